@@ -468,7 +468,11 @@ def cap_distance(x, cm, points):
         xyz = points
     else:
         raise ValueError("Inappropriate shape for point!")
-    dotprod = np.dot(xyz, x)
+    #
+    # Rounding can push the dot product of two unit vectors just beyond
+    # [-1, 1], where arccos returns NaN.
+    #
+    dotprod = np.clip(np.dot(xyz, x), -1.0, 1.0)
     cdist = np.degrees(np.arccos(1.0 - np.abs(cm)) - np.arccos(dotprod))
     if cm < 0:
         cdist *= -1.0
